@@ -59,6 +59,7 @@ THEOREMS = [
     "Cppcheck.GccArgs.entryArgs_command_quote",
     "Cppcheck.GccArgs.import_eq_spec_partial",
     "Cppcheck.GccArgs.import_eq_spec_counterexample",
+    "Cppcheck.GccArgs.isystem_relative_counterexample",
 ]
 MODULES = ["Cppcheck.Props.C32"]
 
@@ -987,7 +988,15 @@ def tie_cli(ctx, res, R, ndocs, name):
         text, _ = doc_to_json_and_model(rng, entries)
         pj = os.path.join(root, "compile_commands.json")
         open(pj, "w", encoding="utf-8").write(text)
-        r = subprocess.run([exe, "--project=" + pj, "-v", "-j1", "--template={id}"], cwd=root, stdout=subprocess.PIPE, stderr=subprocess.PIPE, timeout=120)
+        for attempt in range(30):
+            try:
+                r = subprocess.run([exe, "--project=" + pj, "-v", "-j1", "--template={id}"], cwd=root, stdout=subprocess.PIPE, stderr=subprocess.PIPE, timeout=120)
+                break
+            except OSError:          # the shared binary is being relinked by a concurrent check of another property
+                import time
+                time.sleep(2)
+        else:
+            raise core.CheckBroken("cppcheck binary %s cannot be executed" % exe)
         lines = r.stdout.split(b"\n")
         cli = []
         for i, l in enumerate(lines):
